@@ -108,3 +108,18 @@ Theorem C04_extend_union_base_refuted :
   exists c b c' v, extend noq c b = Ok c' /\ conforms c' v /\ total v = true /\ apply false b v = Err ValueErr.
 Proof. exact union_base_refuted. Qed.
 Print Assumptions C04_extend_union_base_refuted.
+
+(* Schema inheritance (Schema.extend): for a field the two schemas share, the merged schema keeps
+   the child's field extended over the base's, the base field is compatible with it, and every
+   value of the extended field is accepted by the base field.  (Field specs in the fragment of
+   C04_extend_narrows_partial.) *)
+Theorem C04_schema_extend_shared_fields_partial : forall q bfs fs fs',
+  no_quirks q -> keys_distinct fs = true ->
+  fields_extend (extend_in q) bfs fs = Ok fs' ->
+  forall k sc sb, In (k, sc) fs -> field_of k bfs = Some sb ->
+  good sc -> base_ok sb -> wf sb ->
+  exists sc', field_of k (merged_schema bfs fs') = Some sc' /\
+              extend_in q sc sb = Ok sc' /\ compat q sb sc' = true /\
+              (forall v, total v = true -> conforms sc' v -> accepts sb v).
+Proof. exact schema_extend_shared_fields. Qed.
+Print Assumptions C04_schema_extend_shared_fields_partial.
